@@ -18,9 +18,11 @@ SAFETY = {"NeverOlder", "Coalesce", "IdenticalNoReload"}
 QUIET = {"Delivered", "RetryWithoutSubmit", "NoBlockForever"}
 
 # role A
-MODEL = {"quick": ["DebounceMC_frr.cfg", "DebounceMC_frrrej.cfg", "DebounceMC_k8s.cfg",
+MODEL = {"quick": ["DebounceMC_frr.cfg", "DebounceMC_frrrej.cfg", "DebounceMC_k8s.cfg", "DebounceMC_frr_long.cfg",
+                   "DebounceMC_k8s_long.cfg",
                    "DebounceMC_frr_live3.cfg", "DebounceMC_k8s_live3.cfg"],
-         "thorough": ["DebounceMC_frr.cfg", "DebounceMC_frrrej.cfg", "DebounceMC_k8s.cfg", "DebounceMC_frr_big.cfg",
+         "thorough": ["DebounceMC_frr.cfg", "DebounceMC_frrrej.cfg", "DebounceMC_k8s.cfg", "DebounceMC_frr_long.cfg",
+                      "DebounceMC_k8s_long.cfg", "DebounceMC_frr_big.cfg",
                       "DebounceMC_k8s_big.cfg", "DebounceMC_frr_live3.cfg", "DebounceMC_frrrej_live3.cfg",
                       "DebounceMC_k8s_live3.cfg"]}
 # role B: sources of scripts.  name -> (spec instance that judges, target, cfg prefix, targeted edges or None = all,
@@ -28,16 +30,22 @@ MODEL = {"quick": ["DebounceMC_frr.cfg", "DebounceMC_frrrej.cfg", "DebounceMC_k8
 # "frrrej" = the frr instance with rejected submissions, played on the session-manager wiring.
 PLAN = {
     "quick": {
-        "frr": ("frr", "deb", "DebounceMC_frr", 700, 1, [("_burst", 40, 70, "burst"), ("_hammer", 8, 1000, "hammer")]),
-        "frrrej": ("frr", "sm", "DebounceMC_frrrej", 230, 1, [("_burst", 8, 70, "burst"), ("_hammer", 8, 1000, "hammer")]),
-        "k8s": ("k8s", "k8s", "DebounceMC_k8s", 600, 1, [("_burst", 40, 70, "burst"), ("_hammer", 8, 1000, "hammer")]),
+        "frr": ("frr", "deb", "DebounceMC_frr", 700, 1,
+                [("_burst", 40, 70, "burst"), ("_hammer", 8, 1000, "hammer"), ("_longfail", 16, 80, "edge")]),
+        "frrrej": ("frr", "sm", "DebounceMC_frrrej", 230, 1,
+                   [("_burst", 8, 70, "burst"), ("_hammer", 8, 1000, "hammer"), ("_longfail", 6, 80, "edge")]),
+        "k8s": ("k8s", "k8s", "DebounceMC_k8s", 800, 1,
+                [("_burst", 40, 70, "burst"), ("_hammer", 8, 1000, "hammer"), ("_longfail", 12, 80, "edge")]),
     },
     "thorough": {
         "frr": ("frr", "deb", "DebounceMC_frr", None, 8,
-                [("_sim", 1500, 30, "edge"), ("_burst", 400, 70, "burst"), ("_hammer", 60, 1000, "hammer")]),
-        "frrrej": ("frr", "sm", "DebounceMC_frrrej", 900, 1, [("_burst", 60, 70, "burst"), ("_hammer", 24, 1000, "hammer")]),
-        "k8s": ("k8s", "k8s", "DebounceMC_k8s", None, 3,
-                [("_sim", 1500, 30, "edge"), ("_burst", 400, 70, "burst"), ("_hammer", 60, 1000, "hammer")]),
+                [("_sim", 1500, 30, "edge"), ("_burst", 400, 70, "burst"), ("_hammer", 60, 1000, "hammer"),
+                 ("_longfail", 150, 80, "edge")]),
+        "frrrej": ("frr", "sm", "DebounceMC_frrrej", 900, 1,
+                   [("_burst", 60, 70, "burst"), ("_hammer", 24, 1000, "hammer"), ("_longfail", 30, 80, "edge")]),
+        "k8s": ("k8s", "k8s", "DebounceMC_k8s", None, 1,
+                [("_sim", 1500, 30, "edge"), ("_burst", 400, 70, "burst"), ("_hammer", 60, 1000, "hammer"),
+                 ("_longfail", 150, 80, "edge")]),
     },
 }
 VIAS = ["extra", "bfd", "set", "mix"]     # session-manager entry points that carry the configurations
@@ -91,6 +99,18 @@ def decorate(steps, rnd, profile="edge"):
     return out
 
 
+def file_fault(steps, rnd):
+    """Session-manager target: one of the script's failing attempts (if any) is made to fail below the reload
+    action - the configuration file cannot be written while that attempt is due."""
+    fails = [i for i, st in enumerate(steps) if st["op"] == "Done" and not st["ok"]]
+    if not fails or rnd.random() < 0.4:
+        return steps
+    i = rnd.choice(fails)
+    j = max(k for k in range(i) if steps[k]["op"] == "Fire" and steps[k]["body"])
+    steps[i]["file"] = steps[j]["file"] = True
+    return steps
+
+
 def mk_script(sid, variant, target, steps, beats, free=False, via="extra"):
     return {"id": sid, "variant": variant, "target": target, "via": via, "reload_us": RELOAD_US, "retry_us": RETRY_US,
             "beats": beats, "free": free, "steps": steps}
@@ -113,7 +133,10 @@ def gen_scripts(chk):
         for n, st in enumerate(steps):
             for r in range(reps):
                 nvia += 1
-                scripts.append(mk_script("%s-e%d-%d" % (target, n, r), variant, target, decorate(st, rnd), beats,
+                dst = decorate(st, rnd)
+                if target == "sm":
+                    dst = file_fault(dst, rnd)
+                scripts.append(mk_script("%s-e%d-%d" % (target, n, r), variant, target, dst, beats,
                                          via=VIAS[(nvia + chk.seed) % len(VIAS)]))
         for suffix, num, depth, profile in sims:
             simcfg = prefix + suffix + ".cfg"
@@ -123,8 +146,10 @@ def gen_scripts(chk):
             raw = raw[:num]
             for n, w in enumerate(raw):
                 nvia += 1
-                scripts.append(mk_script("%s-s%s%d" % (target, suffix, n), variant, target,
-                                         decorate([o["act"] for o in w], rnd, profile), beats, profile == "hammer",
+                dst = decorate([o["act"] for o in w], rnd, profile)
+                if target == "sm" and profile != "hammer":
+                    dst = file_fault(dst, rnd)
+                scripts.append(mk_script("%s-s%s%d" % (target, suffix, n), variant, target, dst, beats, profile == "hammer",
                                          via=VIAS[(nvia + chk.seed) % len(VIAS)]))
             vlib.log("  %s: %d simulated walks (depth %d, %s delays)" % (simcfg, len(raw), depth, profile))
     return scripts
